@@ -37,8 +37,10 @@ CLAIMED = {
              "dot(result', x) = dot(result, x) + m*(f(x) - f(0)) and constant = f(0); the ones/coefficients shortcuts need the "
              "permutation-of-a-finite-sum lemma and are proved for every variable order.",
         note="A1, A5, A6, A7; linearity hypothesis is the contract of is_linear (C04) restricted to the syntactic class LP extraction is "
-             "specified on; LinearProgramExtractor.extract_* and the LPData assembly are not yet under contract (listed in evidence); "
-             "known findings D9, D10, D11, D12, D24; LinearProgramExtractor.extract has the bounded stand-in native/bounded_lp.py",
+             "specified on; LinearProgramExtractor.extract_objective / extract_constraints (filtered row lists, FilterListSpec) / "
+             "extract_bounds / extract are proved against the statement of the property (contracts/lpextract_c.py); native/bounded_lp.py "
+             "stays as the end-to-end differential companion; D9, D10, D11, D12, D24 (VectorPowerSum part) repaired; known finding D24 "
+             "(vector-valued ElementwisePower accepted as an objective)",
         design="6 C05"),
     "C06": dict(
         text="solve_scipy and solve_lp are symbolically executed for every method class and every outcome of the external solver "
@@ -47,21 +49,22 @@ CLAIMED = {
              "bounds clause of the external contract; linprog's status map is proved injective.",
         note="A3 external contracts of scipy.optimize.minimize/linprog (result object arbitrary; success+bounds passed => within "
              "bounds; fun = objective(x); linprog success => feasible for the arrays passed); C05 for the LP arrays; "
-             "_build_solver_cache is proved; LinearProgramExtractor.extract is contract-only (bounded); known finding D14 (D13 repaired)",
+             "_build_solver_cache, LinearProgramExtractor.extract and the Problem.solve dispatcher are proved; the degree and extraction "
+             "contracts the LP path rests on are tagged for this property too; D13 and D14 (bounds post-check) repaired",
         design="6 C06"),
     "C07": dict(
         text="On every returning path of both drivers the reported objective value is proved equal to the objective expression's "
              "denotation at the returned point in the user's orientation, and the values dict is proved to hold exactly one entry "
              "per problem variable at the right position (loop invariant over the variable list).",
         note="A3 (fun = objective callable at x); C01/C05 contracts for the compiled objective / cost vector; Solution.__getitem__ "
-             "accessors not yet under contract; known findings D9, D10, D11 through the constant term (D15 repaired)",
+             "accessors not yet under contract (listed in evidence); D9, D10, D11, D15 repaired",
         design="6 C07"),
     "C08": dict(
         text="Wiring obligations at the linprog call site of the real solve_lp: cost vector negated iff maximise, A_ub/b_ub/A_eq/b_eq/"
              "bounds passed unchanged exactly when present, method passed through, status map, objective un-negation, LP cache "
              "reuse; together with C05 (data = model) the optyx verdict is that of the LP solver on the model's arrays.",
         note="A3 determinism of linprog on identical arrays; no second formulation is solved (DESIGN.md section 8); "
-             "LinearProgramExtractor.extract contract-only (bounded)",
+             "LinearProgramExtractor.extract proved (C05); Problem.solve dispatcher proved (routing by _is_linear_problem, method names)",
         design="6 C08"),
     "C09": dict(
         text="Wiring obligations at the minimize call site of the real solve_scipy for every method class: fun is the sign-adjusted "
@@ -69,7 +72,9 @@ CLAIMED = {
              "methods, bounds exactly for the bounds methods, constraints = cached SciPy list, x0/method/tol passed through; "
              "_compute_initial_point proved inside the bounds; _auto_select_method never picks a bounds-only method with constraints.",
         note="convergence clause (raw SciPy converges => optyx OPTIMAL) is assumption A3' (DESIGN.md section 8), not decided; "
-             "_build_solver_cache, compile_jacobian, compile_hessian are contract-only (bounded) at this point",
+             "_build_solver_cache and compile_jacobian (one expression) are proved, compile_hessian is stated + bounded; the default "
+             "starting point for explicit +-inf bounds is covered by the bounded stand-in native/bounded_x0.py only (A1); "
+             "Problem.solve dispatcher proved (method / strict / keyword forwarding)",
         design="6 C09"),
     "C13": dict(
         text="Data-structure invariant over the four caches: every mutator (minimize, maximize, subject_to, _invalidate_caches, "
@@ -85,43 +90,53 @@ CLAIMED = {
              "constraints (membership at an arbitrary name), one entry per name, natural order, on both arms of the shortcut; "
              "get_bounds / n_variables follow that list.",
         note="sorted() modelled (A4); natural order is a predicate established by sorted(key=_natural_sort_key) only; the two worklist "
-             "helpers (_try_get_single_vector_source, _get_variables_iterative) are contract-only (bounded; block lemma for the iterative collector proved) (D20 repaired)",
+             "helpers (_try_get_single_vector_source, _get_variables_iterative) are contract-only (bounded: native/bounded_order.py multi-view "
+             "models, bounded_twins.py; block lemma for the iterative collector proved); that the sort key orders digit runs "
+             "numerically is bounded only (native/bounded_order.py) (D20 repaired)",
         design="6 C16"),
     "C18": dict(
         text="Path obligations in both drivers: on every path reaching the external solver call, not (strict and some non-continuous "
              "variable); without strict a warning whose text is joined from exactly the filtered variable list was emitted before "
              "the call; IntegerVariableError carries exactly those names and is raised only under strict.",
-        note="Variable.__init__ binary-bounds invariant and the view constructors are not yet under contract",
+        note="Problem.solve forwards `strict` (dispatcher contract); that containers hand the declared domain to their element Variables "
+             "(constructors, views) is covered by the bounded stand-in native/bounded_domain.py only",
         design="6 C18"),
     "C20": dict(
         text="Fault mode: the external solver call may raise an arbitrary exception object (Exception-derived or BaseException-only); "
              "on every exit of solve_scipy warnings.showwarning is proved to be the entry object, no other process-global is "
              "written, the model is untouched and each cache is either untouched or assigned a completely built value; a raised "
              "Exception yields a FAILED Solution.",
-        note="faults inside callbacks are faults of the external call (they propagate through it); increased_recursion_limit not yet "
-             "under contract",
+        note="faults inside callbacks are faults of the external call (they propagate through it); Problem.solve is proved to write "
+             "neither the model nor a cache by itself; source scan: the only sites writing process-global state are solve_scipy "
+             "(proved) and increased_recursion_limit (restores in a finally, checked syntactically); a new site is exit 2",
         design="6 C20"),
     "C12": dict(
         text="P1: every closure returned by the compiler is proved against the parameter store at call time (store havocked between "
              "build and call); P2: every gradient-family contract is stated and proved at an arbitrary parameter valuation unrelated "
              "to the store at build time; P3: Parameter is never polynomial for the degree routine; P4: Parameter.set writes only "
              "that parameter's value.",
-        note="history quantifier handled by invariant (each operation preserves 'cached artefacts are heap-parametric'); D16 (two "
-             "Parameter objects with one name through the compile cache) belongs to C14",
+        note="history quantifier handled by invariant (each operation preserves 'cached artefacts are heap-parametric'); frame clause "
+             "'no Parameter's current value is read while the result is built' on every builder function "
+             "(contracts/paramframe_c.py), tagged for this property only; the bounded derivative checks change every Parameter "
+             "between compilation and evaluation; D16 (two Parameter objects with one name through the compile cache) belongs to C14",
         design="6 C12"),
     "C10": dict(
         text="_make_constraint (all operand kinds), Constraint.evaluate/violation/is_satisfied and the element-wise vector constraint "
              "helper are proved: normalised expression = lhs - rhs, sense kept, violation formula per sense, one constraint per "
              "element in order, size mismatch raises (iff).",
-        note="_matrix_constraint (nested loops) and the SciPy constraint dicts of _build_solver_cache are not yet under proof; NumPy "
-             "scalar on the left is outside the class table (bounded)",
+        note="the SciPy constraint dictionaries of _build_solver_cache are proved (type, fun and jac per sense); _matrix_constraint "
+             "(nested loops over a NumPy array) is covered by native/bounded_vecmat.py only; NumPy scalar on the left is outside the "
+             "class table (bounded)",
         design="6 C10"),
     "C14": dict(
         text="For each @lru_cache function found by the decorator scan a memo-soundness lemma is discharged per key-component kind: "
              "if two keys are equal under the __eq__ methods as written in the source (themselves proved: Variable/Parameter by name, "
              "interior nodes by identity), a result that met the function's proved contract for one key meets it for the other at "
              "every later parameter valuation; memo-key hashability (_hash assigned by __init__) is an obligation of the callers.",
-        note="A4 lru_cache semantics; eviction is irrelevant to soundness; D16 repaired: 'a Parameter root is never memoised' is now a call-site precondition of _compile_cached; D1 repaired",
+        note="A4 lru_cache semantics; eviction is irrelevant to soundness; overriding __eq__ methods are executed and must identify only "
+             "trees with one denotation; source scan: every memoised function has its lemma and no function writes a module- or "
+             "class-level container (a table keyed by id() or a bare name is a violation, any other new table exit 2); D16 repaired: "
+             "'a Parameter root is never memoised' is now a call-site precondition of _compile_cached; D1 repaired",
         design="6 C14"),
     "C03": dict(
         text="Row contract ROW(e, V): every entry k of a Jacobian row is a well-formed tree whose value at every regular point is "
@@ -137,7 +152,9 @@ CLAIMED = {
              "hypothesis DOMD/DOMJ is part of 'regular point'; A6 distinct names inside a vector; variable lists with distinct "
              "names. Stated but not proved (bounded stand-in native/bounded_jacobian.py, never counted as proved): "
              "QuadraticForm.jacobian_row, MatrixSum.jacobian_row, _compile_vectorized_power_gradient, "
-             "_compile_vectorized_unary_gradient, compile_jacobian for 2+ expressions; lemmas covers<->occ are in the Lean table",
+             "_compile_vectorized_unary_gradient, compile_jacobian for 2+ expressions (pool x 6+ variable lists -- every arrangement "
+             "of the variables for the index-array fast paths -- x 2 points, mixed constant / non-constant lists, Parameters changed "
+             "after compilation); D4 repaired with proof, D5 repaired with bounded evidence; lemmas covers<->occ are in the Lean table",
         design="6 C03"),
     "C11": dict(
         text="Vector part: _vector_binary_op is symbolically executed for every operand class (scalar, VectorVariable, "
@@ -175,7 +192,8 @@ CLAIMED = {
              "is the analytic fact that functions agreeing on an open set have the same derivative there (stated in DESIGN.md and "
              "the Lean table, not an SMT obligation). compile_hessian (diagonal shortcuts for vectorised sums, upper-triangle "
              "loop with mirroring, sanitiser) is stated but NOT proved: it is covered only by the bounded stand-in "
-             "native/bounded_jacobian.py (pool x 4 variable lists x points, symmetry and second central differences), never "
+             "native/bounded_jacobian.py (pool x 6+ variable lists x points, symmetry and second central differences, Parameters changed "
+             "after compilation), never "
              "counted as proved; A1 real arithmetic",
         design="6 C17"),
     "C19": dict(
